@@ -33,6 +33,11 @@ func addSubstProcs(r rng, p *sdl.Program) {
 		pr := &sdl.Proc{ID: fmt.Sprintf("pp%d", i), Class: "smart", OrderClass: pick(r, orderClasses), Order: pick(r, orderVals)}
 		if r.p(0.2) {
 			pr.Class = "inst"
+			if r.p(0.4) {
+				// ... that declines (PostProcessAfterInstantiation answers false) and sits between the
+				// container's candidate collection (Order 2) and its narrowing (Order 4)
+				pr.OrderClass, pr.Order = "ordered", 3
+			}
 		}
 		if r.p(0.1) {
 			pr.Class = "plain"
